@@ -51,6 +51,17 @@ def _logged_step(self, *a, **k):
 
 
 JJ.JacobianSolver.step = _logged_step
+_orig_clip = OO.MeritFunctionForMatch._clip_to_max_steps
+
+
+def _logged_clip(self, x_step):
+    raw = [fbits(v) for v in np.atleast_1d(x_step)]
+    out = _orig_clip(self, x_step)
+    TRACE.append(["C", raw, [fbits(v) for v in np.atleast_1d(out)]])
+    return out
+
+
+OO.MeritFunctionForMatch._clip_to_max_steps = _logged_clip
 _x_prop = JJ.JacobianSolver.x
 
 
@@ -145,7 +156,8 @@ def build(case):
             tt.weight = t["weight"]
         tars.append(tt)
     opt = xd.Optimize(vary=vary, targets=tars, show_call_counter=False, n_steps_max=spec.get("n_steps_max", 20),
-                      restore_if_fail=spec.get("restore_if_fail", True), assert_within_tol=spec.get("assert_within_tol", True))
+                      restore_if_fail=spec.get("restore_if_fail", True), assert_within_tol=spec.get("assert_within_tol", True),
+                      **({"check_limits": False} if spec.get("check_limits") is False else {}))
     return opt, box, names, fun, act, log
 
 
@@ -375,6 +387,8 @@ def reconstruct_iters(trace):
             exc = trace[j][1] if j < len(trace) else "?"
             if not ms:
                 return None
+            clips = [t for t in trace[i + 1:j] if t[0] == "C"]
+            num = {"raw": clips[0][1], "xstep": clips[0][2]} if len(clips) == 1 else {}
             x0 = ms[0][1]
             if len(ms) == 1:
                 its.append({"resync": x_since, "early": True, "jac": [], "trials": [], "last": x0, "pe": False})
@@ -389,7 +403,7 @@ def reconstruct_iters(trace):
                 if pe:
                     rest = rest[:-1]
                 if rest:
-                    its.append({"resync": x_since, "early": False, "jac": jac, "trials": rest[:-1], "last": rest[-1], "pe": pe})
+                    its.append({"resync": x_since, "early": False, "jac": jac, "trials": rest[:-1], "last": rest[-1], "pe": pe, **num})
                 else:
                     its.append({"resync": x_since, "early": False, "jac": jac, "trials": [], "last": x0, "pe": False})
             x_since = False
@@ -404,6 +418,8 @@ def driver_line(case, e):
     spec = case["problem"]
     if name not in ("solve", "step", "reload", "tag"):
         return None
+    if spec.get("check_limits") is False:
+        return None          # the skeleton models the default configuration (limits checked by the merit function)
     if name == "step" and any(k in args for k in ("disable_target", "disable_vary", "disable_vary_name", "enable_target", "enable_vary", "enable_vary_name")):
         return None
     if e["exc"] not in ("ok", "UserRaise", "RuntimeError", "ValueError"):
@@ -416,6 +432,7 @@ def driver_line(case, e):
     problem = {"n": spec["nk"], "nt": len(spec["targets"]),
                "weights": [fbits(k.get("weight") if k.get("weight") is not None else 1.0) for k in knobs],
                "limits": [None if k.get("limits") is None else [fbits(k["limits"][0]), fbits(k["limits"][1])] for k in knobs],
+               "max_step": [None if k.get("max_step") is None else fbits(k["max_step"]) for k in knobs],
                "tvalue": [fbits(t.get("value", 0.0)) for t in spec["targets"]],
                "ttol": [fbits(t["tol"]) for t in spec["targets"]],
                "ftable": ftable, "assert": spec.get("assert_within_tol", True), "restore": spec.get("restore_if_fail", True)}
@@ -475,6 +492,11 @@ def gen_problem(rng, klass=None):
     for i in range(nk):
         if klass in ("limit_fail", "far"):
             lo, hi = rng.choice([-1, -0.5]), rng.choice([0.5, 1])
+            z = rng.random()
+            if z < 0.2:
+                lo = 0            # a bound that is exactly zero (positivity constraint): int 0 / float 0.0 are falsy
+            elif z < 0.35:
+                hi = 0.0
         else:
             lo, hi = rng.choice([-50, -20, -10]), rng.choice([10, 20, 50])
         k = {"init": round(rng.uniform(lo * 0.8, hi * 0.8), 3)}
@@ -492,6 +514,9 @@ def gen_problem(rng, klass=None):
             t["weight"] = rng.choice([0.5, 2, 10])
     spec = {"class": klass, "kind": kind, "nk": nk, "A": A, "b": b, "knobs": knobs, "targets": targets,
             "n_steps_max": rng.choice([1, 3, 10, 20])}
+    if rng.random() < 0.15:
+        spec["check_limits"] = False       # the merit function does not refuse points outside the limits: the solver's own
+                                           # clamping of the trial steps is all that keeps the iterates inside (oracle only)
     if klass == "raise":
         rad = rng.choice([0.05, 0.2, 0.5, 1.0, 2.0])
         spec["raise_region"] = [0, knobs[0]["init"] - rad, knobs[0]["init"] + rad]
